@@ -52,7 +52,20 @@ public:
     Type* new_object(execution_data& ed, Args&&... args) {
         void* allocated_object = r1::allocate(m_pool, sizeof(Type), ed);
 
+        // The constructor may run user code (a copy of a functor, a body or a message):
+        // return the storage to the pool if it throws
+        struct storage_guard {
+            small_object_pool& pool;
+            void* storage;
+            execution_data& ed;
+            ~storage_guard() {
+                if (storage) {
+                    r1::deallocate(pool, storage, sizeof(Type), ed);
+                }
+            }
+        } guard{*m_pool, allocated_object, ed};
         auto constructed_object = new(allocated_object) Type(std::forward<Args>(args)...);
+        guard.storage = nullptr;
         return constructed_object;
     }
 
@@ -60,7 +73,19 @@ public:
     Type* new_object(Args&&... args) {
         void* allocated_object = r1::allocate(m_pool, sizeof(Type));
 
+        // The constructor may run user code (a copy of a functor, a body or a message):
+        // return the storage to the pool if it throws
+        struct storage_guard {
+            small_object_pool& pool;
+            void* storage;
+            ~storage_guard() {
+                if (storage) {
+                    r1::deallocate(pool, storage, sizeof(Type));
+                }
+            }
+        } guard{*m_pool, allocated_object};
         auto constructed_object = new(allocated_object) Type(std::forward<Args>(args)...);
+        guard.storage = nullptr;
         return constructed_object;
     }
 
